@@ -10,6 +10,7 @@ C evaluators: verdict/direct (differences empty <=> structurally equal),
 """
 import copy
 import itertools
+import math
 
 from harness import core
 from harness.core import enc_str, enc_val
@@ -18,8 +19,8 @@ from harness.props import compare_common as cc
 MANIFEST = dict(
     category="proof",
     technique="Lean 4 theorems over a hand-written model of the compare engine + differential correspondence with the implementation",
-    text="Lean theorems, unbounded in tree size/depth, stated for EVERY flag record (C07_reachable / C07_reachable_iff: the configurations reachable through any history of set__flag_compare_* calls are exactly those satisfying FlagInv, so 'every flag record' covers them): C07_direct_exact - on recursively converted trees with roots of the same kind direct_compare returns and its differences list is empty iff the trees are structurally equal (deq: same key set with equal values, same list length and order, leaves equal with equal type, None only equals None); C07_default_exact - the default compare (no composite key) returns and reports nothing iff the trees are equal up to the order of the non-record items inside each list (eqv: dictionaries key by key, the records of a list pairwise in order, the non-record items of a list the same up to deq as multisets: every item occurs, up to deq, equally often on both sides - so 1, '1', 1.0, True, None, 'None', '' are different items and a list nested in a list does not depend on the order of the keys of the dictionaries inside it: the inputs of the fixed findings C07-b and C07-c are inside the theorem, C07_collision_fixed / C07_emptykey_fixed / C07_keyorder_fixed) under ONE remaining hypothesis that speaks about the key function, not about the inputs: KeyFaithfulOn a b - the key of the non-record list items, json.dumps(item, sort_keys=True, default=repr) (modelled character by character: jsonVal, validated by stream cmp.keys), is equal for two of them iff they are deq, and is never empty. It is true of json.dumps on genuine Python values and is not derivable in the model because floats are opaque lexemes: C07_float_lexeme_cex (a float with the lexeme '1' has the key of the int 1 - not a Python value), hence C07_default_exact_stmt (no hypothesis) is false IN THE MODEL ONLY (C07_default_exact_stmt_false_in_model) - not a finding; C07_key_hypothesis_tight - for ANY two distinct leaves with the same key, [x, y] and [y, x] are equal up to order and two differences are reported (the hypothesis cannot be dropped); C07_default_refl; C07_flags_only_add_detail / C07_verdict_flags - for every option record two flag records give the same exception class or the same number of lines and the same core entries with the same places (numeric deltas, equal-lists, shown places and the difftypes/not_equal filing are the only things that vary). The model (lean/N0Verif/Model/Compare.lean) follows n0dict.compare/direct_compare, n0list.compare/direct_compare, xpath_match, generate_composite_keys, update_extend and the flag machine branch by branch for the code WITH fix patches C07-a, C08-a, C09-a, C07-b, C07-c, C09-b, C10-a applied; it is compared with the implementation on generated pairs of trees (verdict, entry sets with rendered paths and values, number of prose lines, exception class) and the statement itself is executed on the implementation with Python-side oracles - on ALL generated inputs, collisions of str(), reordered dictionary keys inside nested lists and mixed scalar types included (no class is suppressed any more).",
-    note='str()/repr() and the JSON text (sorted keys, ensure_ascii escapes) of values, xpath_match and the flag machine are modelled and validated by their own streams (cmp.keys, cmp.match, cmp.flags incl. all histories of length <= 3/4); floats are opaque lexemes (NaN, infinities, -0.0 excluded); ints stay within float range; dictionary keys unique (Python dicts).',
+    text="Lean theorems, unbounded in tree size/depth, stated for EVERY flag record (C07_reachable / C07_reachable_iff: the configurations reachable through any history of set__flag_compare_* calls are exactly those satisfying FlagInv, so 'every flag record' covers them): C07_direct_exact - on recursively converted trees with roots of the same kind direct_compare returns and its differences list is empty iff the trees are structurally equal (deq: same key set with equal values, same list length and order, leaves equal with equal type, None only equals None); C07_default_exact - the default compare (no composite key) returns and reports nothing iff the trees are equal up to the order of the non-record items inside each list (eqv: dictionaries key by key, the records of a list pairwise in order, the non-record items of a list the same up to deq as multisets: every item occurs, up to deq, equally often on both sides - so 1, '1', 1.0, True, None, 'None', '' are different items and a list nested in a list does not depend on the order of the keys of the dictionaries inside it: the inputs of the fixed findings C07-b and C07-c are inside the theorem, C07_collision_fixed / C07_emptykey_fixed / C07_keyorder_fixed) under ONE remaining hypothesis that speaks about the key function, not about the inputs: KeyFaithfulOn a b - the key of the non-record list items, json.dumps(item, sort_keys=True, default=repr) (modelled character by character: jsonVal, validated by stream cmp.keys), is equal for two of them iff they are deq, and is never empty. It is true of json.dumps on genuine Python values and is not derivable in the model because floats are opaque lexemes: C07_float_lexeme_cex (a float with the lexeme '1' has the key of the int 1 - not a Python value), hence C07_default_exact_stmt (no hypothesis) is false IN THE MODEL ONLY (C07_default_exact_stmt_false_in_model) - not a finding; C07_key_hypothesis_tight - for ANY two distinct leaves with the same key, [x, y] and [y, x] are equal up to order and two differences are reported (the hypothesis cannot be dropped); C07_default_refl; C07_flags_only_add_detail / C07_verdict_flags - for every option record two flag records give the same exception class or the same number of lines and the same core entries with the same places (numeric deltas, equal-lists, shown places and the difftypes/not_equal filing are the only things that vary; since fix C07-d the numeric delta of two ints beyond float range is their exact difference instead of an OverflowError - the delta is a flag of the entry in the model, so 'never raises' is what the model says and what streams cmp.run/bigint, verdict/bigint, flags/bigint check). OPEN FINDINGS: C07-e (C07_negzero_cex: 0.0 == -0.0 but the JSON keys '0.0' / '-0.0' differ, so the default compare of {'a':[0.0]} and {'a':[-0.0]} reports two unique items; classifier negzero_class, stream verdict/floats) and C07-f (an int of more than 4300 digits inside a list: compare raises ValueError from json.dumps - CPython's int->str limit - where direct_compare returns; evaluator hugeint). The model (lean/N0Verif/Model/Compare.lean) follows n0dict.compare/direct_compare, n0list.compare/direct_compare, xpath_match, generate_composite_keys, update_extend and the flag machine branch by branch for the code WITH fix patches C07-a, C08-a, C09-a, C07-b, C07-c, C09-b, C10-a, C07-d, C08-b, C10-c applied; it is compared with the implementation on generated pairs of trees (verdict, entry sets with rendered paths and values, number of prose lines, exception class) and the statement itself is executed on the implementation with Python-side oracles - on ALL generated inputs, collisions of str(), reordered dictionary keys inside nested lists, mixed scalar types, ints beyond float range, infinities and nan included; the only suppressed classes are those of the open findings C07-e and C07-f.",
+    note='str()/repr() and the JSON text (sorted keys, ensure_ascii escapes) of values, xpath_match and the flag machine are modelled and validated by their own streams (cmp.keys, cmp.match, cmp.flags incl. all histories of length <= 3/4); floats are opaque lexemes compared as texts: infinities are inside the model (jsonFloat writes Infinity/-Infinity/NaN), nan (nan != nan) and -0.0 (0.0 == -0.0) are generated but answered `unsupported` by the driver and judged by the C evaluators only; ints of any size up to the int->str limit of the interpreter (4300 digits); dictionary keys unique (Python dicts).',
     design_ref='5/C07',
 )
 
@@ -82,11 +83,56 @@ def check_flags(c):
     return None
 
 
+def zero_signs_in_items(t, inside=False, out=None):
+    """signs of the float zeros that occur inside the NON-RECORD items of the lists of a tree (at any depth of such an item)"""
+    out = set() if out is None else out
+    if isinstance(t, dict):
+        for v in t.values():
+            zero_signs_in_items(v, inside, out)
+    elif isinstance(t, list):
+        for v in t:
+            zero_signs_in_items(v, inside or not isinstance(v, dict), out)
+    elif inside and isinstance(t, float) and t == 0:
+        out.add(math.copysign(1.0, t))
+    return out
+
+
+def negzero_class(c):
+    """class C07-e: keyed/default compare, and float zeros of BOTH signs occur among (inside) the non-record items of the
+    lists of the two trees (0.0 == -0.0, but their JSON texts - the pairing keys - differ)"""
+    if c.get("mode") != "k":
+        return False
+    return len(zero_signs_in_items(c["a"]) | zero_signs_in_items(c["b"])) == 2
+
+
 def known_class(c, detail=None):
-    return None  # no open finding: C07-b and C07-c are fixed, their inputs are checked like all others
+    # C07-b, C07-c, C07-d are fixed: their inputs are checked like all others
+    if "digits" in c:
+        return "C07-f" if c["digits"] > 4300 else None
+    if negzero_class(c) and (detail is None or "oracle_equal" in detail):
+        return "C07-e"
+    return None
 
 
 def corr_known(c):
+    return None
+
+
+@evaluator("hugeint")
+def check_hugeint(c):
+    """C07 (entry points agree on raising): an int of `digits` digits as a list item; direct_compare returns a verdict,
+    so must compare (class C07-f when the int is beyond the interpreter's int->str limit of 4300 digits).
+    The case holds the number of digits only (the value itself cannot be written into a replay file under the limit)."""
+    n0dict, _, _ = cc.lib()
+    v = 10 ** (c["digits"] - 1)
+    a, b = n0dict.convert_recursively({"a": [v, 1]}), n0dict.convert_recursively({"a": [1, v] if c.get("swap") else [v, 1]})
+    cc.reset_flags()
+    r_d = core.call(a.direct_compare, b) if not c.get("swap") else ("ok", None)
+    r_k = core.call(a.compare, b)
+    if r_d[0] == "ok" and r_k[0] != "ok":
+        return {"direct_compare": "returns", "compare_raises": r_k[1], "digits": c["digits"]}
+    if r_k[0] == "ok" and r_k[1]["differences"]:
+        return {"differences": len(r_k[1]["differences"]), "digits": c["digits"]}
     return None
 
 
@@ -102,7 +148,7 @@ def valid_case(c):
 
 def shrink_failure(evaluator_name, case):
     fn = EVAL.get(evaluator_name.split("/")[0])
-    if fn is None or not valid_case(case):
+    if fn is None or "digits" in case or not valid_case(case):
         return case
     return cc.shrink_case(case, lambda x: valid_case(x) and fn(x) is not None and known_class(x) is None)
 
@@ -182,8 +228,15 @@ def run(ctx):
     for _ in range(n // 2):
         lst = cc.gen_list(rng, 3)
         ck = rng.choice([[], [], rng.sample(cc.KEYS, 1), rng.sample(cc.KEYS, 2), rng.choice(cc.KEYS)])
-        tr = [] if rng.random() < 0.7 else [[rng.choice(["//" + k for k in cc.KEYS] + ["*", ""]), rng.choice(cc.TR_NAMES)]]
+        # patterns are matched against /p[i]/<field> for a key field (fix C10-c) and against /p for an item that is no record
+        tr = [] if rng.random() < 0.6 else [[rng.choice(["//" + k for k in cc.KEYS] + ["p/" + k for k in cc.KEYS[:4]] + ["p[%d]/%s" % (i, k) for i in (0, 1) for k in cc.KEYS[:4]] + ["*", "", "/p"]), rng.choice(cc.TR_NAMES)]]
         kcases.append({"list": lst, "ck": ck, "tr": tr})
+    # records whose key fields hold values of different type with one str(), or texts that imitate the old separators (fix C08-b)
+    for _ in range(n // 10):
+        fields = rng.choice([["id"], ["id", "k"], ["k", "id", "f"]])
+        lst = cc.gen_keyed_list(rng, 1, fields, nested_keyed=False) + [rng.choice([{}, {"v": 1}, 7, "7", None, [["id", 7]], '{"id": 7}'])]
+        tr = [] if rng.random() < 0.6 else [[rng.choice(["//id", "p/id", "p[0]/id", "*/k", "//k"]), rng.choice(cc.TR_NAMES)]]
+        kcases.append({"list": lst, "ck": rng.choice([fields, fields[0], fields + ["id"]]), "tr": tr})
     # JSON text of exotic strings, nested containers and dictionaries whose keys need sorting / escaping
     exotic = ["", '"', "\\", "\n\r\t\b\f", "\x00\x1f\x7f", "\x80\xa0\xff", "\u0100\u2028\uffff", "\U0001f600a", "a\"b\\c", "~ !", "[1, 2]", "null"]
     for i in range(n // 20):
@@ -220,6 +273,49 @@ def run(ctx):
     rrng = ctx.rng("repeat")
     rcases = [dict(c, seed=rrng.randrange(10**9), n=rrng.randrange(1, 3)) for c in (kcases2[: ctx.budget(1000, 14000)] + dcases[: ctx.budget(500, 6000)])]
     ctx.evaluate("repeat", rcases, cc.check_repeat)
+    # ---- fix C07-d on purpose: ints beyond float range that differ, numeric-delta flag on (and off), every walk
+    rng = ctx.rng("bigint")
+    big = [10**400, 10**400 + 1, -(10**400), 10**309, 2**1024, 12345678901234567890, 7]
+    bcases = []
+    for _ in range(n // 20):
+        x, y = rng.choice(big), rng.choice(big)
+        shape = rng.randrange(4)
+        if shape == 0:
+            a, b = {"a": x, "b": 1}, {"a": y, "b": 1}
+        elif shape == 1:
+            a, b = [x, 1], [y, 1]
+        elif shape == 2:
+            a, b = {"r": [{"k": "1", "a": x}]}, {"r": [{"k": "1", "a": y}]}
+        else:
+            a, b = {"r": [[x], 5]}, {"r": [[y], 5]}
+        bcases.append({"mode": rng.choice(["d", "k"]), "setters": [["delta", rng.random() < 0.8]] + cc.gen_setters(rng)[:2], "ck": [], "only": [], "excl": [], "tr": [], "a": a, "b": b, "_kind": "bigint"})
+    ctx.correspond("cmp.run/bigint", bcases, cc.corr_line, cc.corr_impl)
+    ctx.evaluate("verdict/bigint", bcases, check_verdict, in_known=known_class)
+    ctx.evaluate("flags/bigint", bcases, check_flags, in_known=known_class)
+    # ---- floats: both zeros (class C07-e in keyed lists), infinities, nan (nan != nan: a nan leaf always differs)
+    rng = ctx.rng("floats")
+    fpool = [0.0, -0.0, float("inf"), float("-inf"), float("nan"), 1.0, 0, "0.0", 1e308, -1e308]
+    fcases2 = []
+    for _ in range(n // 10):
+        xs = [rng.choice(fpool) for _ in range(rng.choice([1, 2, 3]))]
+        ys = list(xs)
+        rng.shuffle(ys)
+        if rng.random() < 0.5:
+            i = rng.randrange(len(ys))
+            ys[i] = -ys[i] if isinstance(ys[i], float) and rng.random() < 0.6 else rng.choice(fpool)
+        shape = rng.randrange(3)
+        if shape == 0:
+            a, b = {"a": xs}, {"a": ys}
+        elif shape == 1:
+            a, b = {"a": dict(zip("xyz", xs))}, {"a": dict(zip("xyz", ys))}
+        else:
+            a, b = {"a": [xs, {"v": xs[0]}]}, {"a": [{"v": ys[0]}, ys]}
+        fcases2.append({"mode": rng.choice(["d", "k"]), "setters": cc.gen_setters(rng), "ck": [], "only": [], "excl": [], "tr": [], "a": a, "b": b, "_kind": "floats"})
+    ctx.correspond("cmp.run/floats", fcases2, cc.corr_line, cc.corr_impl)
+    ctx.evaluate("verdict/floats", fcases2, check_verdict, in_known=known_class)
+    ctx.evaluate("flags/floats", fcases2, check_flags, in_known=known_class)
+    # ---- class C07-f on purpose: an int beyond the int->str limit as a list item
+    ctx.evaluate("hugeint", [{"digits": d, "swap": s} for d in (400, 4300, 4301, 5000) for s in (False, True)], check_hugeint, in_known=known_class)
     # ---- the classes of the fixed findings C07-b / C07-c are exercised on purpose: values with the same str() and
     # another type, '' next to a record, nested lists holding dictionaries whose keys come in another order
     rng = ctx.rng("collisions")
@@ -258,9 +354,9 @@ def run(ctx):
         ctx.extra["exhaustive_pairs"] = "all %d same-root pairs of the %d trees with <= 4 nodes over keys {a,b}, leaves {1,'1',None}, both entry points" % (len(ex) // 2, len(ts))
     ctx.extra["assumptions"] = [
         "trees are converted recursively (every container is an n0dict/n0list), dictionary keys are plain str names",
-        "floats are compared by repr (NaN, infinities and -0.0 are not generated)",
-        "ints stay within float range (the numeric-delta detail calls float() on them)",
+        "floats are compared by repr in the model: trees holding nan or -0.0 are `unsupported` in B (counted) and judged by the C evaluators with Python's == (nan != nan, 0.0 == -0.0); infinities are inside the model",
+        "ints of up to 4300 digits (CPython's int->str limit; beyond it: finding C07-f); ints beyond float range are generated (fix C07-d)",
         "str()/repr() of values is modelled for ASCII, Latin-1 and printable non-ASCII characters; the JSON text of a list item (ensure_ascii escapes, surrogate pairs, sorted keys) for every code point (both validated by stream cmp.keys)",
-        "the model follows the code with fix patches C07-a, C08-a, C09-a, C07-b, C07-c, C09-b, C10-a applied",
+        "the model follows the code with fix patches C07-a, C08-a, C09-a, C07-b, C07-c, C09-b, C10-a, C07-d, C08-b, C10-c applied",
     ]
     ctx.extra["trusted_base"] = ["Python-side oracles deq/eqv of harness/props/compare_common.py (reading of 'structurally equal' / 'equal up to order')"]
